@@ -31,7 +31,12 @@ struct TTEntry
     Move move;
 };
 
+#ifdef CHESSPP_VERIF_TT_ENTRIES
+// verification builds may use a small table (cheap to construct, constant slot replacement)
+using TTable = HashMap<uint64_t, TTEntry, CHESSPP_VERIF_TT_ENTRIES>;
+#else
 using TTable = HashMap<uint64_t, TTEntry, 4 * 1024 * 1024>;
+#endif
 
 }  // namespace tt
 }  // namespace engine
